@@ -127,7 +127,8 @@ class ExprMixin:
         return v
       hook = self.theory.coercions.get((v.sort.name, sort.name))
       if hook:
-        return hook(self, v)
+        r = hook(self, v)
+        return V(r.sort, r.t, origin=v.origin)
       if isinstance(sort, S.Opt) and v.sort is sort.inner:
         return V(sort, sort.some(v.t))
       if isinstance(v.sort, S.Opt) and v.sort.inner is sort:
@@ -280,6 +281,7 @@ class ExprMixin:
       ss = a.sort
       if isinstance(b, PyTuple) and not b.items:
         b = V(ss, ss.empty())
+      b = self.coerce(b, ss)
       x = ss.elem.fresh('x')
       if isinstance(op, ast.Sub):
         return V(ss, z3.Lambda([x], z3.And(a.t[x], z3.Not(b.t[x]))))
@@ -430,9 +432,14 @@ class ExprMixin:
           b = self.coerce(b, a.sort)
         elif isinstance(b.sort, S.Opt) and b.sort.inner is a.sort:
           a = self.coerce(a, b.sort)
+        elif (b.sort.name, a.sort.name) in self.theory.coercions:
+          b = self.coerce(b, a.sort)
+        elif (a.sort.name, b.sort.name) in self.theory.coercions:
+          a = self.coerce(a, b.sort)
         else:
           raise Unsupported('ite sorts %s / %s' % (a.sort, b.sort))
-      return V(a.sort, z3.If(c, a.t, b.t))
+      # the result may alias either branch (conservative for ownership tracking)
+      return V(a.sort, z3.If(c, a.t, b.t), origin=a.origin or b.origin)
     if isinstance(a, PyTuple) and isinstance(b, PyTuple) and len(a.items) == len(b.items):
       return PyTuple([self.ite(c, x, y) for x, y in zip(a.items, b.items)])
     raise Unsupported('conditional expression over %r / %r' % (a, b))
@@ -506,7 +513,8 @@ class ExprMixin:
           fs = s.field_sorts[(c0, attr)]
           for c in cs[1:]:
             t = z3.If(s.is_(c, recv.t), s.field(c, attr, recv.t), t)
-          org = ('immutable', s.name, attr) if isinstance(fs, (S.SetOf, S.DictOf)) else None
+          org = ('immutable', s.name, attr) if (
+              isinstance(fs, (S.SetOf, S.DictOf)) or fs.name in self.theory.as_set) else None
           return V(fs, t, origin=org)
         # methods / properties defined on the python class(es)
         pm = self.adt_method(recv, attr, node)
@@ -552,6 +560,9 @@ class ExprMixin:
 
   def adt_method(self, recv, attr, node):
     from engine import source
+    virt = self.theory.virtual.get((recv.sort.name, attr))
+    if virt is not None:
+      return FuncRef(source.load(self.repo, virt[0]), virt[1], bound_self=recv)
     for (rp, cn), b in self.theory.classes.items():
       if b[0] == 'adt' and b[1] is recv.sort:
         mod = source.load(self.repo, rp)
